@@ -57,6 +57,10 @@ def check(ctx):
     rm = ratemodel(ctx.tree)
     _r1(ctx, pkg)
     _r2(ctx, pkg)
+    # marker tokens never become species: the whole pseudo-element discipline of C01.R6 (lists filled through _create_species with a
+    # None filter; _create_species refuses exactly the configured pseudo-elements -- whole-name membership, not a prefix or pattern)
+    from .c01 import _r6 as pseudo_rule
+    ctx.absorb(pseudo_rule, "R2", only=lambda o: o.outcome != "MISSING")
     _split_formats(ctx, pkg)
     _kida(ctx, pkg)
     _leeds(ctx, pkg)
